@@ -51,7 +51,7 @@ func (e *Engine) selectFuncs(re *regexp.Regexp) []*ssa.Function {
 			continue // type-parametric origin body: verified per instance (//@ instantiate)
 		}
 		k := e.fnKey(f)
-		if re.MatchString(k) {
+		if re.MatchString(k) || re.MatchString(f.String()) { // contract key (type arguments stripped) or full instance name
 			out = append(out, f)
 		}
 	}
